@@ -28,8 +28,8 @@ func init() {
 			More:   []Edit{{File: rm, Old: slotField, New: slotFieldNew}},
 			Expect: []string{"C20.R7@(*internal/packages/internal/packageimport.RequestManager).handleResponse#critical-section-does-not-block"}},
 		Mutant{Prop: "C20", Name: "benign-pull-slot-taken-inside-goroutine", File: rm, Benign: true,
-			Old:  goHead,
-			New:  "\t\tgo func(ctx context.Context, image string) {\n\t\t\tr.pullSlots <- struct{}{}\n\t\t\trawPkg, err := r.pullImage(",
+			Old: goHead,
+			New: "\t\tgo func(ctx context.Context, image string) {\n\t\t\tr.pullSlots <- struct{}{}\n\t\t\trawPkg, err := r.pullImage(",
 			More: []Edit{{File: rm, Old: slotField, New: slotFieldNew},
 				{File: rm, Old: "\t\t\tr.handleResponse(image, response{\n", New: "\t\t\t<-r.pullSlots\n\t\t\tr.handleResponse(image, response{\n"}}},
 		// ---- C16.R10
@@ -68,5 +68,27 @@ func init() {
 		Mutant{Prop: "C13", Name: "benign-template-context-defaults-nil-config", File: tmplf, Benign: true,
 			Old: "\tp, err := json.Marshal(tmplCtx)\n",
 			New: "\tif tmplCtx.Config == nil || len(tmplCtx.Images) == 0 {\n\t\ttmplCtx.Config = map[string]any{}\n\t}\n\tp, err := json.Marshal(tmplCtx)\n"},
+	)
+
+	// ---- local records (normalize_records.go): a few locals collected into a new struct type
+	const osctl = "internal/controllers/objectsets/objectset_controller.go"
+	const pausedHead = "\tvar phasesArePaused, unknown bool\n\tif len(objectSet.GetRemotePhases()) > 0 {\n\t\tvar err error\n\t\tphasesArePaused, unknown, err = c.areRemotePhasesPaused(ctx, objectSet)\n"
+	const pausedHeadRec = "\tvar phases pkoPauseState\n\tif len(objectSet.GetRemotePhases()) > 0 {\n\t\tvar err error\n\t\tphases.paused, phases.unknown, err = c.areRemotePhasesPaused(ctx, objectSet)\n"
+	const pausedType = "type pkoPauseState struct {\n\tpaused  bool\n\tunknown bool\n}\n\nfunc (c *GenericObjectSetController) reportPausedCondition(\n"
+	recEdits := func(firstCase, trueCase string) []Edit {
+		return []Edit{
+			{File: osctl, Old: "func (c *GenericObjectSetController) reportPausedCondition(\n", New: pausedType},
+			{File: osctl, Old: "\t\tphasesArePaused = objectSet.IsSpecPaused()\n", New: "\t\tphases.paused = objectSet.IsSpecPaused()\n"},
+			{File: osctl, Old: "\tcase unknown ||\n\t\tobjectSet.IsSpecPaused() && !phasesArePaused ||\n\t\t!objectSet.IsSpecPaused() && phasesArePaused:\n", New: firstCase},
+			{File: osctl, Old: "\tcase objectSet.IsSpecPaused() && phasesArePaused:\n", New: trueCase},
+			{File: osctl, Old: "\tcase !objectSet.IsSpecPaused() && !phasesArePaused:\n", New: "\tcase !objectSet.IsSpecPaused() && !phases.paused:\n"},
+		}
+	}
+	addMutants(
+		Mutant{Prop: "C09", Name: "benign-pause-state-collected-into-record", File: osctl, Benign: true,
+			Old: pausedHead, New: pausedHeadRec, More: recEdits("\tcase phases.unknown ||\n\t\tobjectSet.IsSpecPaused() && !phases.paused ||\n\t\t!objectSet.IsSpecPaused() && phases.paused:\n", "\tcase objectSet.IsSpecPaused() && phases.paused:\n")},
+		Mutant{Prop: "C09", Name: "record-paused-true-without-phase-state", File: osctl,
+			Old: pausedHead, New: pausedHeadRec, More: recEdits("\tcase phases.unknown ||\n\t\t!objectSet.IsSpecPaused() && phases.paused:\n", "\tcase objectSet.IsSpecPaused():\n"),
+			Expect: []string{"C09.R3@(*internal/controllers/objectsets.GenericObjectSetController).reportPausedCondition#Paused=True"}},
 	)
 }
